@@ -347,11 +347,7 @@ def features(spec):
             feats.add('fanin_several_nodes')
         if len(ss) > 1:
             feats.add('fanin')
-    # edge endpoints whose names look like the local names that generated in_edge operators use
     for s, t, et, a in edge_list:
-        for v in (s.rsplit('/', 1)[1], t.rsplit('/', 1)[1]):
-            if re.match(r'^weight(_in\d+)?$', v) or re.search(r'_in\d+$', v) or re.search(r'_source\d+$', v):
-                risk.add('edge_endpoint_named_like_edge_local')
         if s.rsplit('/', 1)[1] == t.rsplit('/', 1)[1]:
             risk.add('edge_same_name_src_tgt')
     # self connection
@@ -391,6 +387,14 @@ def features(spec):
                 allnames.add(v)
                 count[v] = count.get(v, 0) + 1
     for v in allnames:
+        # names that look like the local names / labels that generated in_edge operators use for weights, sources
+        # and targets (weight, weight_in0, m_in2, k_source0): open finding when the model has edges
+        if edge_list and (re.match(r'^weight(_in\d+)?$', v) or re.search(r'_in\d+$', v) or re.search(r'_source\d+$', v)):
+            risk.add('name_like_edge_local')
+        # names that look like derived labels (x_v1, x_num1): open finding when an input is multiply driven
+        if re.search(r'_(v|num)\d+$', v):
+            feats.add('name_like_derived_label')
+    for v in allnames:
         m = re.match(r'^(.*)_v(\d+)$', v)
         if m:
             feats.add('name_like_generated')
@@ -402,6 +406,8 @@ def features(spec):
         for b in allnames:
             if a != b and a in b:
                 feats.add('names_contain_one_another')
+    if 'name_like_derived_label' in feats and 'multi_driven_input' in feats:
+        risk.add('derived_label_name_with_multi_driven_input')
     if any(nt.get('over') for nt in spec['node_types'].values()):
         feats.add('node_type_overrides')
     # same type several nodes
